@@ -76,6 +76,20 @@ def run(repo, rep, tier):
     from . import c09 as _c09
     L.borrow(repo, rep, "R08.1", "C09", _c09.element_details,
              ("multipart-complete",))
+    # the loop variable of a global repeat is the item too (C05 owns the
+    # contexts)
+    from . import c05 as _c05
+    L.borrow(repo, rep, "R08.1", "C05", _c05.repeat_first_context,
+             ("repeat-first-context",))
+    # the position values are numbers that may also be called (the legacy
+    # spelling repeat.x.number()): the descriptor wraps what it computes
+    di = repo.cls("chameleon.utils.descriptorint").methods["__get__"]
+    rets = [r_ for r_ in ast.walk(di.node) if isinstance(r_, ast.Return)]
+    rep.check(bool(rets) and all(
+        isinstance(r_.value, ast.Call) and src(r_.value.func) == "callableint"
+        for r_ in rets), "R08.3", di.qualname, "position values are handed "
+        "out as callable integers", construct="position-callable",
+        where=L.where(di))
     L.state_rule(repo, rep)
 
 
